@@ -531,6 +531,15 @@ pub fn run(ctx: &Ctx) -> Report {
                 }
             };
             rep.count(&format!("threads={n}"));
+            if n == 1 {
+                for l in &lines {
+                    let kind = l.split(' ').next().unwrap_or("");
+                    let ok = l.contains(" success=true ");
+                    let extra = if l.contains(" assertion=-") || kind != "unit" { "" } else { "+assertion-evaluated" };
+                    let cex = if kind == "prop" && !l.ends_with("counterexample=none") { "+counterexample" } else { "" };
+                    rep.count(&format!("result:{kind}:{}{extra}{cex}", if ok { "success" } else { "failure" }));
+                }
+            }
             if audits.len() != 1 {
                 if !lines.is_empty() {
                     rep.fail(&format!("c17:hook:{}", p.name), "run_runnables did not call the audit hook exactly once", json!({"project": p.name}), json!({"calls": audits.len()}));
